@@ -816,6 +816,80 @@ def guard_agree_rule(rep, fn):
     return n
 
 
+def terminator_rule(rep, fn):
+    """R-TERM: a cursor p walks a buffer together with its remaining size r (both advanced by the same step).  A store
+    `*(p + n) = c` with n set to r on some path (`n = r`: "the rest of the buffer is the item") writes the byte at
+    p + r - the first byte behind the buffer - unless a relational test of n lies between that assignment and the store."""
+    n_ = 0
+    # (cursor, remaining) pairs: `r -= x` and `p += x` with the same x in one block
+    pairs = set()
+    for bid in fn.reachable_blocks():
+        subs, adds = {}, {}
+        for e in fn.blocks[bid].elems:
+            for y, _ in walk(e):
+                if y.get("k") == "bin" and y["op"] in ("-=", "+=") and core.strip_casts(y["x"]).get("k") == "ref":
+                    (subs if y["op"] == "-=" else adds).setdefault(key(core.strip_casts(y["y"])), []).append(core.strip_casts(y["x"]))
+        for k_, rs in subs.items():
+            for r in rs:
+                for p in adds.get(k_, []):
+                    if "t" in p and fn.unit.type(p["t"])["k"] == "ptr" and "t" in r and fn.unit.type(r["t"])["k"] == "int":
+                        pairs.add((p["id"], r["id"], p["n"], r["n"]))
+    if not pairs:
+        return 0
+    for pid, rid, pn, rn in pairs:
+        copies = [(pos, y) for pos, root, y, ps in fn.nodes() if y.get("k") == "bin" and y["op"] == "=" and core.strip_casts(y["x"]).get("k") == "ref" and
+                  core.is_ref(core.strip_casts(y["y"]), id=rid)]
+        for cpos, cy in copies:
+            nvar = core.strip_casts(cy["x"])
+            for spos, root, y, ps in fn.nodes():
+                if not (y.get("k") == "bin" and y["op"] == "=" and const_val(y["y"]) is not None):
+                    continue
+                l = core.strip_casts(y["x"])
+                tgt = None
+                if l.get("k") == "un" and l.get("op") == "*":
+                    t = _sum_terms(l["e"])
+                    if t is not None and set(k_ for k_ in t if k_) == {pn, nvar["n"]}:
+                        tgt = l
+                elif l.get("k") == "sub" and core.is_ref(core.strip_casts(l["b"]), id=pid) and core.is_ref(core.strip_casts(l["i"]), id=nvar["id"]):
+                    tgt = l
+                if tgt is None:
+                    continue
+                n_ += 1
+                # path from the copy to the store without a relational test of n and without another assignment to n
+                seen = set()
+                work = [(cpos[0], cpos[1] + 1)]
+                hit = False
+                while work and not hit:
+                    b, i0 = work.pop()
+                    if (b, i0) in seen:
+                        continue
+                    seen.add((b, i0))
+                    stop = False
+                    elems = fn.blocks[b].elems
+                    for i in range(i0, len(elems)):
+                        if (b, i) == spos:
+                            hit = True
+                            break
+                        for z, _ in walk(elems[i]):
+                            if z.get("k") == "bin" and z["op"] in ("<", ">", "<=", ">=") and nvar["id"] in core.ref_ids(z):
+                                stop = True
+                            if z.get("k") == "bin" and z["op"] == "=" and core.is_ref(core.strip_casts(z["x"]), id=nvar["id"]) and z is not cy:
+                                stop = True
+                        if stop:
+                            break
+                    if not stop and not hit:
+                        for s_ in fn.blocks[b].rsucc():
+                            work.append((s_, 0))
+                inst = "terminator:%s+%s#%d" % (pn, nvar["n"], n_)
+                desc = "%s: the terminator stored at %s + %s stays inside the buffer when %s is the whole remaining size '%s'" % (fn.name, pn, nvar["n"], nvar["n"], rn)
+                if hit:
+                    rep.violated("R-TERM", fn, inst, desc, "'%s = %s' at line %s reaches the store at line %s with no test of '%s' in between: the byte at "
+                                 "%s + %s is the first byte behind the buffer" % (nvar["n"], rn, cy.get("ln"), y.get("ln"), nvar["n"], pn, rn), y.get("ln"))
+                else:
+                    rep.proved("R-TERM", fn, inst, desc, "", y.get("ln"))
+    return n_
+
+
 def stale_remaining_rule(rep, fn):
     """`left = end - cur` ties a remaining-size variable to a cursor.  Wherever the cursor is given a new value afterwards
     (assignment, or its address handed to a callee), the same block also updates `left` - otherwise the loop that follows
@@ -920,6 +994,7 @@ def all_lints(rep, fn):
     post_find_rule(rep, fn)
     parsed_addend_rule(rep, fn)
     guard_agree_rule(rep, fn)
+    terminator_rule(rep, fn)
 
 
 def run_scope(rep, tier, us, exclude=(), only=None, budget_quick=45, extra_rules=()):
